@@ -1083,6 +1083,131 @@ class H4par(Case):
         return obs
 
 
+def _nan_to_num_model(x, copy=True, **kw):
+    """numpy.nan_to_num contract on object arrays of S (numpy itself leaves object arrays alone): NaN entries
+    become 0, in a copy or -- copy=False -- in the array handed in"""
+    if not (isinstance(x, np.ndarray) and x.dtype == object):
+        return np.nan_to_num(x, copy=copy, **kw)
+    out = x.copy() if copy else x
+    for idx in np.ndindex(*out.shape):
+        v = out[idx]
+        if isinstance(v, (float, complex, np.floating, np.complexfloating)) and v != v:
+            out[idx] = S(0)
+    return out
+
+
+class H3bathdyn(Case):
+    """TwoTimeBathCorrelations.occupation() / correlation() with a caller-supplied `system_correlations=` table
+    (upper triangle: symbolic correlations, below the diagonal NaN, as the class itself produces it) that covers
+    the requested range: the caller's table is untouched -- NaN pattern (concrete fact) and all values (solver) --
+    and the answers equal those of a fresh object given a copy of the table."""
+    functions = ("bath_dynamics.TwoTimeBathCorrelations.occupation", "bath_dynamics.TwoTimeBathCorrelations.correlation",
+                 "bath_dynamics.TwoTimeBathCorrelations._calc_kernel", "bath_dynamics.TwoTimeBathCorrelations.__init__")
+    stubs = ("np.nan_to_num in oqupy.bath_dynamics -> its contract on object arrays (NaN -> 0, honouring copy=)",)
+    bounds = {"N": 3, "dt": "1/8", "frequencies": "concrete", "table": "3x3, symbolic upper triangle"}
+
+    def __init__(self, method):
+        from vf.env import NpProxy
+        self.method = method
+        self.id = "H3/bath_dynamics_table_untouched_%s" % method
+        self.env = {"extra": {"oqupy.bath_dynamics.np": NpProxy({"nan_to_num": _nan_to_num_model})}}
+        self.bath = oqupy.Bath(np.array([[0.5, 0.0], [0.0, -0.5]]),
+                               bc.PowerLawSD(alpha=0.1, zeta=1.0, cutoff=2.0, cutoff_type="exponential", temperature=0.5))
+
+    def run(self, inp):
+        import oqupy.bath_dynamics as bd
+        import oqupy.process_tensor as ptm
+        N, dt = 3, 0.125
+        pt = ptm.SimpleProcessTensor(hilbert_space_dimension=2, dt=dt)
+        for k in range(N):
+            pt.set_mpo_tensor(k, np.ones((1, 1, 4)))
+        vals = inp.arr("c", (N, N))
+        nan = float("nan")
+
+        def table():
+            t = np.empty((N, N), dtype=complex if inp.mode == "real" else object)
+            for i in range(N):
+                for j in range(N):
+                    t[i, j] = vals[i, j] if i <= j else nan
+            return t
+        system = oqupy.System(np.zeros((2, 2)))
+        rho0 = np.array([[0.5, 0.0], [0.0, 0.5]])
+
+        def ask(tab):
+            o = bd.TwoTimeBathCorrelations(system, self.bath, pt, initial_state=rho0, system_correlations=tab)
+            with _quiet():
+                if self.method == "occupation":
+                    return [o.occupation(1.5, progress_type="silent")[1], o.occupation(1.5, change_only=True, progress_type="silent")[1]]
+                return [np.array(o.correlation(1.5, 0.25, freq_2=1.0, time_2=0.375, progress_type="silent")),
+                        np.array(o.correlation(1.5, 0.125, progress_type="silent"))]
+        mine = table()
+        got = ask(mine)
+        ref = ask(table())
+        isnan = lambda v: isinstance(v, (float, complex, np.floating, np.complexfloating)) and v != v
+        pattern_ok = all(isnan(mine[i, j]) == (i > j) for i in range(N) for j in range(N))
+        upper = lambda t: np.array([t[i, j] for i in range(N) for j in range(N) if i <= j], dtype=t.dtype)
+        obs = [Ob.holds("caller's table: NaN exactly below the diagonal, as handed in", pattern_ok, key="table_untouched")]
+        if pattern_ok:
+            obs.append(Ob.eq("caller's table: upper-triangle values unchanged", upper(mine), upper(table()), key="table_untouched"))
+        for k, (a, b) in enumerate(zip(got, ref)):
+            obs.append(Ob.eq("answer %d == fresh object given a copy of the table" % k, a, b, key="answer"))
+        return obs
+
+
+class H4chain(Case):
+    """SystemChain: (use, add_X, use) for every add_* method == fresh chain holding the same terms;
+    use = get_nn_full_liouvillians() (also site_liouvillians / nn_liouvillians)."""
+    functions = ("system.SystemChain.add_*", "system.SystemChain.get_nn_full_liouvillians")
+    id = "H4/chain_use_add_use"
+    bounds = {"sites": 3, "d": 2, "methods": 6}
+    env = {}
+
+    def run(self, inp):
+        A = {k: inp.arr(k, (2, 2), cplx=True) for k in ("h", "a", "hl", "hr", "al", "ar", "h2", "a2", "hl2", "hr2", "al2", "ar2")}
+        Ls = inp.arr("ls", (4, 4))
+        Ls2 = inp.arr("ls2", (4, 4))
+        nnv = inp.arr("nnv", (16,))
+        nnv2 = inp.arr("nnv2", (16,))
+        diag = (lambda v: np.diag(v)) if inp.mode == "real" else (lambda v: lib._odiag(v))
+        g, g2 = inp.real("gam", lo=0, hi=2), inp.real("gam2", lo=0, hi=2)
+
+        def base(ch):
+            ch.add_site_hamiltonian(0, A["h"])
+            ch.add_site_liouvillian(1, Ls)
+            ch.add_site_dissipation(2, A["a"], g)
+            ch.add_nn_hamiltonian(0, A["hl"], A["hr"])
+            ch.add_nn_liouvillian(1, diag(nnv))
+            ch.add_nn_dissipation(0, A["al"], A["ar"], g)
+        extra = {"add_site_hamiltonian": lambda ch: ch.add_site_hamiltonian(1, A["h2"]),
+                 "add_site_liouvillian": lambda ch: ch.add_site_liouvillian(0, Ls2),
+                 "add_site_dissipation": lambda ch: ch.add_site_dissipation(1, A["a2"], g2),
+                 "add_nn_hamiltonian": lambda ch: ch.add_nn_hamiltonian(1, A["hl2"], A["hr2"]),
+                 "add_nn_liouvillian": lambda ch: ch.add_nn_liouvillian(0, diag(nnv2)),
+                 "add_nn_dissipation": lambda ch: ch.add_nn_dissipation(1, A["al2"], A["ar2"], g2)}
+        obs = []
+        ref0 = oqupy.SystemChain([2, 2, 2])
+        base(ref0)
+        first_ref = [np.array(x) for x in ref0.get_nn_full_liouvillians()]
+        for name, add in extra.items():
+            ch = oqupy.SystemChain([2, 2, 2])
+            base(ch)
+            first = [np.array(x) for x in ch.get_nn_full_liouvillians()]          # use
+            add(ch)                                                                # add_X
+            second = ch.get_nn_full_liouvillians()                                 # use again
+            fresh = oqupy.SystemChain([2, 2, 2])
+            base(fresh)
+            add(fresh)
+            exp = fresh.get_nn_full_liouvillians()
+            for i in range(2):
+                obs.append(Ob.eq("%s: first use, bond %d == fresh chain with the base terms" % (name, i), first[i], first_ref[i], key="chain_reuse"))
+                obs.append(Ob.eq("%s: use after the addition, bond %d == fresh chain with the same terms" % (name, i), second[i], exp[i],
+                                 key="chain_reuse"))
+            for i in range(3):
+                obs.append(Ob.eq("%s: site liouvillian %d == fresh chain" % (name, i), ch.site_liouvillians[i], fresh.site_liouvillians[i],
+                                 key="chain_reuse"))
+        return obs
+
+
 class H4tebd(Case):
     """the same ChainControl (two controls stacked on one site/step/side) and process tensors used in two
     PtTebd computations == the computation with fresh copies (real PtTebd on a two-site chain without
@@ -1275,7 +1400,7 @@ def cases(tier):
     for cls in ("system", "tdsystem", "tdsystem_field", "parameterized", "meanfield"):
         cs += [H3ctor(cls, m) for m in ("assign", "append", "pop")]
     cs.append(H3ctor("chain", "assign"))
-    cs += [H3guess(), H4par()]
+    cs += [H3guess(), H4par(), H3bathdyn("occupation"), H3bathdyn("correlation"), H4chain()]
     if th:
         cs += [H4ctl("control", 3), H4ctl("chain_control", 3), H4tebd(2)]
     # H4
